@@ -60,7 +60,8 @@ PROPS = {
     ),
     'C06': dict(
         units=[('event', r'(__total|port_index|C06)'), ('reader', r'(^read$|^parse_|expect_bytes|port_occupancy|from__partial_game|C06)'),
-               ('ubjson', r'(C06|to_utf8|to_val|to_key|read_map)')],
+               ('ubjson', r'(C06|to_utf8|to_val|to_key|read_map)'),
+               ('startend', r'(C06|game_start|game_end|^player|player_end|try_from|if_more)')],
         kani=[],
     ),
     'C07': dict(
